@@ -382,6 +382,17 @@ fn copy_meta(cmd: &Value, ev: &mut Map<String, Value>) {
     }
 }
 
+/// an operation on an in-memory key object that does not exist (its `load` was refused by the library):
+/// nothing is called; the event says so (the `load` event itself is judged)
+fn emit_skip(d: &mut Driver, cmd: &Value, why: &str) {
+    let mut ev = Map::new();
+    ev.insert("ev".into(), json!("skip"));
+    ev.insert("op".into(), cmd["op"].clone());
+    ev.insert("why".into(), json!(why));
+    copy_meta(cmd, &mut ev);
+    d.emit(Value::Object(ev));
+}
+
 /// callback record: (argument, planned return)
 struct CbLog {
     calls: Vec<(Vec<u8>, &'static str)>,
@@ -456,10 +467,11 @@ fn op_sign<H: HashChain + 'static>(d: &mut Driver, cmd: &Value) {
     } else {
         // in-memory SigningKey object
         let name = cmd["mem"].as_str().unwrap().to_string();
-        let obj = d
-            .mem
-            .get_mut(&name)
-            .unwrap_or_else(|| panic!("driver: unknown mem key {}", name));
+        if !d.mem.contains_key(&name) {
+            emit_skip(d, cmd, "no in-memory key of that name (its load was refused)");
+            return;
+        }
+        let obj = d.mem.get_mut(&name).unwrap();
         let sk = obj
             .downcast_mut::<SigningKey<H>>()
             .expect("driver: mem key of another hash");
@@ -644,8 +656,14 @@ fn op_verify<H: HashChain + 'static>(d: &mut Driver, cmd: &Value) {
 
 fn op_lifetime<H: HashChain + 'static>(d: &mut Driver, cmd: &Value) {
     let alg = cmd["alg"].as_str().unwrap().to_string();
+    if let Some(name) = cmd.get("mem").and_then(|m| m.as_str()) {
+        if !d.mem.contains_key(name) {
+            emit_skip(d, cmd, "no in-memory key of that name (its load was refused)");
+            return;
+        }
+    }
     let (key, api) = if let Some(name) = cmd.get("mem").and_then(|m| m.as_str()) {
-        let obj = d.mem.get(name).unwrap_or_else(|| panic!("driver: unknown mem key {}", name));
+        let obj = d.mem.get(name).unwrap();
         (
             obj.downcast_ref::<SigningKey<H>>()
                 .expect("driver: mem key of another hash")
@@ -718,10 +736,14 @@ fn op_load<H: HashChain + 'static>(d: &mut Driver, cmd: &Value) {
 fn op_persist<H: HashChain + 'static>(d: &mut Driver, cmd: &Value) {
     let alg = cmd["alg"].as_str().unwrap().to_string();
     let name = cmd["mem"].as_str().unwrap().to_string();
+    if !d.mem.contains_key(&name) {
+        emit_skip(d, cmd, "no in-memory key of that name (its load was refused)");
+        return;
+    }
     let bytes = d
         .mem
         .get(&name)
-        .unwrap_or_else(|| panic!("driver: unknown mem key {}", name))
+        .unwrap()
         .downcast_ref::<SigningKey<H>>()
         .expect("driver: mem key of another hash")
         .as_slice()
